@@ -138,6 +138,11 @@ def check_copy(arg):
         return fails, 1
     if cp.line != src.line:
         bad("text", f"text differs: {cp.line!r} vs {src.line!r}")
+    try:
+        if not (cp == src) or (cp != src):
+            bad("not-equal", f"the {how} does not compare equal to its source ({cp.line!r})")
+    except Exception as ex:
+        bad("not-equal", f"comparing the {how} with its source raised {type(ex).__name__}: {ex}")
     if clean(cp.data()) != clean(src.data()):
         d1, d2 = clean(src.data()), clean(cp.data())
         bad("data", f"data differs in {[k for k in d1 if d1[k] != d2.get(k)]}")
